@@ -76,14 +76,17 @@ def HashClean (hash : List UInt8 → String) : Prop := ∀ bs, ∀ c ∈ (hash b
     all types `t₁ t₂` of the covered fragment — well-formed (`wfT`: sane identifier / path characters,
     package present exactly on non-exported names and uniform per struct / interface, embedded
     fields named by their type unless the variant writes the name, func-typed methods, named types
-    without type arguments and with reachable scope), tags harmless (`tagsOk`: the variant writes
+    with reachable scope whose type arguments are canonical basic types, named types, pointers /
+    slices / aliases of these (`wfArg`)), tags harmless (`tagsOk`: the variant writes
     them, or there are none), declarations rendered coherently (`Coherent`: same declaration ⇔ same
     (PathOf package, name, scope indices)) — the names agree exactly when the types are identical.
     Covers: basic types incl. `byte`/`rune`, pointer, slice, array length, map, channel direction,
     func arity / order / variadic flag, struct field names / order / embedding / package of
     non-exported names (and tags, in the repaired variant), interface method sets incl. package of
-    non-exported methods, aliases, named types by (package, name, scope indices).
-    NOT covered: type arguments (`typeArgString`), detached scopes (`Scope.pos`), closure structs. -/
+    non-exported methods, aliases, named types by (package, name, scope indices, type arguments).
+    NOT covered: type arguments outside `wfArg` (array / map / chan / func / struct / interface /
+    nested generic arguments and the `byte`/`rune` spellings — `typeArgString` has listed defects
+    there), detached scopes (`Scope.pos`), closure structs. -/
 theorem typeNameCfg_injective_partial (cfg : Cfg) (hash : List UInt8 → String) (hinj : Function.Injective hash)
     (hclean : HashClean hash) (ex : Str → Bool) (t₁ t₂ : GoType)
     (w₁ : wfT cfg ex t₁ = true) (w₂ : wfT cfg ex t₂ = true)
@@ -163,6 +166,14 @@ example :
       (.cons ['b'] (some ['q']) false [] namedT (.cons ['T'] none true [] (.pointer namedT) .nil)))
     let t₂ : GoType := .map (.basic .string) (.func (.cons (.slice (.array 3 (.basic .byte))) .nil)
       (.cons (.chan .send (.named 2 none ['e', 'r', 'r', 'o', 'r'] .pkg .nil)) .nil) true)
+    wfT .current exAscii t₁ = true ∧ wfT .current exAscii t₂ = true ∧ tagsErased t₁ = true ∧ tagsErased t₂ = true ∧
+      Coherent (declKeys t₁ ++ declKeys t₂) := by decide
+
+/-- generic instances satisfy the hypotheses: `p.G[*p.T, []int]` and `p.G[p.T, string]` -/
+example :
+    let g (a b : GoType) : GoType := .named 7 (some ['p']) ['G'] .pkg (.cons a (.cons b .nil))
+    let t₁ := g (.pointer namedT) (.slice (.basic .int))
+    let t₂ := g namedT (.basic .string)
     wfT .current exAscii t₁ = true ∧ wfT .current exAscii t₂ = true ∧ tagsErased t₁ = true ∧ tagsErased t₂ = true ∧
       Coherent (declKeys t₁ ++ declKeys t₂) := by decide
 
